@@ -594,6 +594,8 @@ def offset_invariant(db, fam):
                 if v_ == ('k', 0):
                     continue
                 mm = m(('bin', 'Sub', ('fld', ('down', ('call~', 'read_until', ('_', '_', '$buf')), 'Ok'), '0'), ('k', '$c')), v_)
+                if mm is None:
+                    mm = m(('call~', 'saturating_sub', (('fld', ('down', ('call~', 'read_until', ('_', '_', '$buf')), 'Ok'), '0'), ('k', '$c'))), v_)
                 if mm is None or not (isinstance(mm['$c'], int) and mm['$c'] >= 0):
                     okv = False
             if okv:
@@ -660,7 +662,7 @@ def d_offset_sites(f, s, R, db, ctxinfo):
                         'cannot consume the trailing delimiter and a fully consumed buffer only occurs at end of input where n == 0 (trusted: stable EOF)')
     if k == 'call:copy_within':
         a = [norm(R.operand(x)) for x in t['args']]
-        if a[1][0] == 'agg' and isinstance(a[1][1], tuple) and a[1][1][1].endswith('RangeFrom') and m(('fld', ('p', 1), 'start'), a[1][2][0]) is not None and a[2] == ('k', 0):
+        if common.is_tail_range(a[1], lambda e: m(('fld', ('p', 1), 'start'), norm(e)) is not None, ('fld', ('p', 1), 'buffer')) and a[2] == ('k', 0):
             return 'offset-invariant: copy_within(start.., 0) with start <= len' if inv_ok else None
     if k == 'assert:overflow:Sub':
         a, b = norm(R.operand(t['ops'][0])), norm(R.operand(t['ops'][1]))
